@@ -110,9 +110,144 @@ fn gen_fixed(rng: &mut Prng, emit: &mut dyn FnMut(Value)) {
     }
 }
 
+/// CodecLaws cases: the two streaming laws of Proofs/FilterCodec.lean tested on flate2 / brotli themselves, and the
+/// replica of the codec stages cross-checked byte for byte against the library's own Decode/EncodeFilterBody.
+fn gen_laws(rng: &mut Prng, n: usize, emit: &mut dyn FnMut(Value)) {
+    for i in 0..n {
+        let (mut body, _) = gen_body(rng);
+        match i % 7 {
+            0 => body.clear(),
+            1 => body = "x".to_string(),
+            2 => {
+                let (b2, _) = gen_body(rng);
+                body.push_str(&b2.repeat(rng.range(1, 40)));
+            }
+            _ => {}
+        }
+        let mut bytes = body.into_bytes();
+        if rng.chance(1, 3) {
+            mutate_bytes(rng, &mut bytes); // the codecs do not care about UTF-8
+        }
+        let enc = ENCODINGS[i % 3];
+        let level = if enc == "br" { rng.below(12) as u32 } else { rng.below(10) as u32 };
+        let pflush: Vec<usize> = if rng.chance(1, 3) { (0..rng.range(1, 3)).map(|_| rng.below(bytes.len() + 1)).collect() } else { vec![] };
+        let z = compress(enc, level, 22, &pflush, &bytes).unwrap();
+        let part = |rng: &mut Prng, len: usize| -> Vec<usize> {
+            match rng.below(6) {
+                0 => vec![],
+                1 => (1..len).collect(),                       // one byte per write
+                2 => vec![0, 0, len / 2, len / 2, len, len],    // empty writes at the start, in the middle, at the end
+                3 => {
+                    let st = rng.range(2, 64);
+                    (1..=(len.max(1) - 1) / st).map(|k| k * st).collect()
+                }
+                _ => {
+                    let k = rng.range(1, 8);
+                    let mut c: Vec<usize> = (0..k).map(|_| rng.below(len + 1)).collect();
+                    c.sort();
+                    c
+                }
+            }
+        };
+        let cuts = part(rng, z.len());
+        let wcuts = part(rng, bytes.len());
+        emit(json!({"laws": true, "body": hex(&bytes), "enc": enc, "level": level, "pflush": pflush, "cuts": cuts, "wcuts": wcuts}));
+    }
+}
+
+fn run_laws(case: &Value) -> Obs {
+    let body = match parse_body(case) {
+        Some(b) => b,
+        None => return Obs::invalid("body"),
+    };
+    let enc = match s(case, "enc") {
+        Some(e) if ENCODINGS.contains(&e.as_str()) => e,
+        _ => return Obs::invalid("enc"),
+    };
+    let level = case.get("level").and_then(|v| v.as_u64()).unwrap_or(6) as u32;
+    let getv = |k: &str| -> Vec<usize> { case.get(k).and_then(|v| v.as_array()).map(|a| a.iter().filter_map(|x| x.as_u64().map(|y| y as usize)).collect()).unwrap_or_default() };
+    let pflush = getv("pflush");
+    let z = match compress(&enc, level, 22, &pflush, &body) {
+        Some(z) => z,
+        None => return Obs::invalid("compress"),
+    };
+    let cuts = getv("cuts");
+    let wcuts = getv("wcuts");
+    let okc = |c: &Vec<usize>, len: usize| c.windows(2).all(|w| w[0] <= w[1]) && c.iter().all(|x| *x <= len);
+    if !okc(&cuts, z.len()) || !okc(&wcuts, body.len()) {
+        return Obs::invalid("cuts");
+    }
+    let chunks = split_at_cuts(&z, &cuts);
+    let writes = split_at_cuts(&body, &wcuts);
+    let mut o = Obs::new(json!({"laws": "ok"})).trivial(body.is_empty());
+    o.tags.push(format!("law:dec:{enc}"));
+    o.tags.push(format!("law:enc:{enc}"));
+    if chunks.iter().any(|c| c.is_empty()) || writes.iter().any(|c| c.is_empty()) {
+        o.tags.push("law:empty-writes".to_string());
+    }
+    // decoder streaming law: drained outputs + finish concatenate to the body, no call fails
+    let (douts, dend) = match decoder_outputs(&enc, &chunks) {
+        Ok(v) => v,
+        Err(k) => return o.fail(format!("decoder law: call {k} failed on a valid {enc} stream"), "codec-law-decoder"),
+    };
+    let mut dec: Vec<u8> = douts.iter().flatten().cloned().collect();
+    dec.extend_from_slice(&dend);
+    if dec != body {
+        return o.fail(format!("decoder law: drained outputs + finish ({} bytes) differ from the body ({} bytes)", dec.len(), body.len()), "codec-law-decoder");
+    }
+    // encoder streaming law: outputs + finish form a complete valid stream decoding to what was written
+    let (eouts, eend) = match encoder_outputs(&enc, &writes) {
+        Some(v) => v,
+        None => return o.fail("encoder law: a write failed", "codec-law-encoder"),
+    };
+    let mut stream: Vec<u8> = eouts.iter().flatten().cloned().collect();
+    stream.extend_from_slice(&eend);
+    if decode_independent(&enc, &stream).as_deref() != Some(&body[..]) {
+        return o.fail("encoder law: outputs + finish do not decode to the concatenation of the writes", "codec-law-encoder");
+    }
+    // the replica IS the library: chain [decode, append_text "" (identity), encode], outputs compared call by call
+    let headers = vec![Header { name: "Content-Encoding".to_string(), value: enc.clone() }];
+    let fs = vec![FSpec::Text { action: "append_text".to_string(), content: String::new() }];
+    let r = run_chain(&fs, &headers, &chunks);
+    if r.kinds != ["decode", "text", "encode"] || r.err_at.is_some() {
+        return o.fail("library chain [decode, text, encode] not built or failed", "replica-differs-from-library");
+    }
+    let mut writes2: Vec<Vec<u8>> = douts.iter().filter(|p| !p.is_empty()).cloned().collect();
+    if !dend.is_empty() {
+        writes2.push(dend.clone());
+    }
+    let (e2, e2end) = match encoder_outputs(&enc, &writes2) {
+        Some(v) => v,
+        None => return o.fail("encoder replica failed", "replica-differs-from-library"),
+    };
+    let mut k = 0;
+    for (i, p) in douts.iter().enumerate() {
+        let expect: &[u8] = if p.is_empty() {
+            &[]
+        } else {
+            k += 1;
+            &e2[k - 1]
+        };
+        if r.outs[i] != expect {
+            return o.fail(format!("call {i}: the library's output differs from encoder(decoder(chunk)) of the replica"), "replica-differs-from-library");
+        }
+    }
+    let mut expect_end: Vec<u8> = Vec::new();
+    if !dend.is_empty() {
+        expect_end.extend_from_slice(&e2[k]);
+    }
+    expect_end.extend_from_slice(&e2end);
+    if r.end != expect_end {
+        return o.fail("end(): the library's output differs from the replica", "replica-differs-from-library");
+    }
+    o.tags.push(format!("law:lib-replica-equal:{enc}"));
+    o
+}
+
 fn gen(args: &Args, emit: &mut dyn FnMut(Value)) {
     let mut rng = seeded(args.seed);
     gen_fixed(&mut rng, emit);
+    gen_laws(&mut rng, (args.n / 3).max(60), emit);
     for n in 0..args.n {
         // bodies: valid UTF-8 documents; raw-text / comments are rarer than in C03 (D4 is C03's finding) but present
         let (mut body, shape) = gen_body(&mut rng);
@@ -196,6 +331,9 @@ fn gen(args: &Args, emit: &mut dyn FnMut(Value)) {
 }
 
 fn run(case: &Value) -> Obs {
+    if case.get("laws").and_then(|v| v.as_bool()) == Some(true) {
+        return run_laws(case);
+    }
     let body = match parse_body(case) {
         Some(b) => b,
         None => return Obs::invalid("body"),
